@@ -29,6 +29,7 @@ the rules see:
                           everywhere
   S10 try/else            `try: A except: H(jumps) else: B` -> `try: A except: H` ; B
   S11 reduce              `acc = init` ; `for t in it: acc = f(acc, t)` -> `acc = functools.reduce(f, it, init)`
+  S13 rebinding           `x = a` ; `x = f(x)` ; `use(x)`  ->  `x1 = a` ; `x = f(x1)` ; `use(x)`  (then S9 applies)
   S12 literal loops       `for x in (a, b): S(x)`  ->  `S(a)` ; `S(b)`   (at most four simple elements, no
                           `break`, `continue` only as leading guards, x not used afterwards)
 
@@ -850,7 +851,44 @@ class Canon:
             return None
         return name, value
 
+    def _split_rebinding(self, fn: ast.AST, facts: NameFacts) -> bool:
+        """S13: `x = a` ; ... ; `x = f(x)` in one block: the first x becomes a name of its own."""
+        for blk in _blocks(fn):
+            for i, s in enumerate(blk):
+                if not (isinstance(s, ast.Assign) and len(s.targets) == 1 and isinstance(s.targets[0], ast.Name)):
+                    continue
+                x = s.targets[0].id
+                if x in facts.nested_refs or (x in facts.special and x not in facts.loop_targets) or facts.stores.get(x, 0) < 2:
+                    continue
+                if x in facts.loop_targets:
+                    continue
+                for j in range(i + 1, len(blk)):
+                    t = blk[j]
+                    stores_here = [n for n in ast.walk(t) if isinstance(n, ast.Name) and n.id == x and isinstance(n.ctx, (ast.Store, ast.Del))]
+                    if not stores_here:
+                        continue
+                    if isinstance(t, ast.Assign) and len(t.targets) == 1 and isinstance(t.targets[0], ast.Name) and len(stores_here) == 1:
+                        between = blk[i + 1:j]
+                        n_uses = sum(_all_loads(b, x) for b in between) + _all_loads(t.value, x)
+                        if n_uses == 0:
+                            break
+                        used = set(facts.stores) | set(facts.loads) | facts.special
+                        k = 1
+                        while f"{x}__{k}" in used:
+                            k += 1
+                        new = f"{x}__{k}"
+                        ren = _Subst(x, ast.Name(id=new, ctx=ast.Load()))
+                        for m in range(i + 1, j):
+                            blk[m] = ren.visit(blk[m])
+                        t.value = ren.visit(t.value)
+                        s.targets[0].id = new
+                        return True
+                    break
+        return False
+
     def _one_let(self, fn: ast.AST, body: List[ast.stmt], facts: NameFacts) -> bool:
+        if self._split_rebinding(fn, facts):
+            return True
         for blk in _blocks(fn):
             for i, s in enumerate(blk):
                 cand = self._candidate(s, facts)
@@ -858,6 +896,33 @@ class Canon:
                     continue
                 name, value = cand
                 nloads = facts.loads.get(name, 0)
+                # a tuple of global names / constants (`number_types = (int, float, Decimal)`): substitute everywhere
+                if isinstance(value, ast.Tuple) and nloads >= 1 and value.elts and all(
+                    isinstance(x, ast.Constant) or (isinstance(x, ast.Name) and facts.stores.get(x.id, 0) == 0 and x.id not in facts.special)
+                    for x in value.elts
+                ):
+                    after = sum(_all_loads(x, name) for x in blk[i + 1:])
+                    if after == nloads:
+                        sub = _Subst(name, value)
+                        for k in range(i + 1, len(blk)):
+                            blk[k] = sub.visit(blk[k])
+                        del blk[i]
+                        return True
+                # `n = len(x)` with x untouched while n is in use: substitute everywhere
+                if (
+                    nloads >= 2 and _is_call(value, "len", 1) and _simple(value.args[0])  # type: ignore[attr-defined]
+                    and not isinstance(value.args[0], ast.Constant)  # type: ignore[attr-defined]
+                ):
+                    after = sum(_all_loads(x, name) for x in blk[i + 1:])
+                    subject = ast.unparse(value.args[0])  # type: ignore[attr-defined]
+                    root = subject.split(".")[0]
+                    stable_root = facts.stores.get(root, 0) == 0 or (root in facts.loop_targets and facts.stores.get(root, 0) == 1)
+                    if after == nloads and stable_root and not any(_may_mutate(x, subject) for x in blk[i + 1:]):
+                        sub = _Subst(name, value)
+                        for k in range(i + 1, len(blk)):
+                            blk[k] = sub.visit(blk[k])
+                        del blk[i]
+                        return True
                 # alias of a stable attribute path: substitute everywhere
                 if _is_path(value) and nloads >= 1:
                     root = _path_root(value)
@@ -914,6 +979,32 @@ def _unguard(body: List[ast.stmt]) -> Optional[List[ast.stmt]]:
     if rest is None:
         return None
     return [first] + rest
+
+
+_PURE_CALLS = {
+    "isinstance", "len", "str", "repr", "list", "tuple", "iter", "enumerate", "zip", "range", "min", "max", "sum",
+    "any", "all", "sorted", "reversed", "type", "id", "bool", "int", "float", "hash",
+}
+
+
+def _may_mutate(n: ast.AST, subject: str) -> bool:
+    """May evaluating `n` change the object `subject` (a name or attribute path) denotes?"""
+    for x in ast.walk(n):
+        if isinstance(x, (ast.Subscript, ast.Attribute)) and isinstance(x.ctx, (ast.Store, ast.Del)):
+            base = x.value
+            if ast.unparse(base) == subject or ast.unparse(x) == subject:
+                return True
+        if isinstance(x, ast.Call):
+            if isinstance(x.func, ast.Attribute) and ast.unparse(x.func.value) == subject:
+                return True  # any method call on the subject
+            pure = (isinstance(x.func, ast.Name) and x.func.id in _PURE_CALLS) or (
+                # container methods keep a reference to their argument, they do not change it
+                isinstance(x.func, ast.Attribute) and x.func.attr in ("append", "add", "insert", "extend", "setdefault"))
+            if not pure:
+                for a in list(x.args) + [k.value for k in x.keywords]:
+                    if ast.unparse(a) == subject:
+                        return True
+    return False
 
 
 def _blocks(fn: ast.AST) -> Iterable[List[ast.stmt]]:
